@@ -497,7 +497,17 @@ class KernelProof(object):
     def make_ex(self, vector_lengths=None):
         ex = CExec(self.tu, self.reg)
         ex.uninterpreted = set(f for f in MODEL_FUNCS if _has_fn(self.tu, f))
-        ex.vector_lengths = vector_lengths or {}
+        # declared lengths of vector parameters (thickness[n] ...) per call position
+        vl = {}
+        ts = self.ts
+        for fname, lead, pars in (("Iq", 1, ts.iq_pars), ("Fq", 3, ts.iq_pars), ("Iqac", 2, ts.iq_pars),
+                                  ("Iqabc", 3, ts.iq_pars), ("Iqxy", 2, ts.iq_pars),
+                                  ("form_volume", 0, ts.vol_pars), ("shell_volume", 0, ts.vol_pars),
+                                  ("radius_effective", 1, ts.vol_pars)):
+            for i, p in enumerate(pars):
+                if p.length > 1:
+                    vl[(fname, lead + i)] = p.length
+        ex.vector_lengths = vl
         return ex
 
     def args_for_call(self):
@@ -841,9 +851,21 @@ def _kernel_job(sub, job):
                       function="generated:%s_%s" % (model, kind), engine="cvc")
 
 
+def all_kernels():
+    from sasmodels import core
+    out = []
+    for name in core.list_models():
+        info = core.load_model_info(name)
+        if callable(info.Iq):
+            continue            # pure python model: no generated C kernel
+        out += [(name, "Iq"), (name, "Iqxy")]
+    return out
+
+
 def kernel_contracts(reg, prop, tier, kernels=None):
     from vp.core import run_parallel
-    kernels = kernels or QUICK_KERNELS
+    if kernels is None:
+        kernels = all_kernels() if tier == "thorough" else QUICK_KERNELS
     run_parallel(reg, _kernel_job, [(prop, m, k) for m, k in kernels])
     reg.assume("model functions Iq/Fq/Iqac/Iqabc/form_volume/shell_volume/radius_effective are uninterpreted "
                "functions of the arguments the parameter table prescribes")
